@@ -463,6 +463,15 @@ polyseed_data* pv_seed_by_path(pv_rng* rng, const pv_mseed* m, int how, unsigned
     }
 }
 
+/* clock values outside the 1024-month range or otherwise odd (a wallet used after 2107, a broken or unset clock, a millisecond clock) */
+uint64_t pv_gen_odd_clock(pv_rng* rng) {
+    static const uint64_t ODD[] = { 0, 1, PV_EPOCH - 1, PV_EPOCH + 1024 * PV_STEP, PV_EPOCH + 1024 * PV_STEP + 1, PV_EPOCH + 1024 * PV_STEP - 1, PV_EPOCH + 1025 * PV_STEP, PV_EPOCH + 2047 * PV_STEP + 5, 1ull << 32, (1ull << 32) + PV_EPOCH,
+                                    1ull << 33, 1ull << 63, (1ull << 63) - 1, UINT64_MAX, UINT64_MAX - 1, 0xFFFFFFFF80000000ull, 1790000000000ull /* milliseconds */, 4328627904ull };
+    uint32_t k = pv_randn(rng, (uint32_t)(sizeof ODD / sizeof *ODD) + 4);
+    if (k < sizeof ODD / sizeof *ODD) return ODD[k];
+    return k & 1 ? PV_EPOCH + 1024 * PV_STEP + pv_rand64(rng) % (4096 * PV_STEP) : pv_rand64(rng);
+}
+
 /* a seed with abstract value m by a rotating path (half of the time the plain load); counted per path */
 polyseed_data* pv_seed_any_path(pv_rng* rng, const pv_mseed* m, unsigned coin) {
     static __thread unsigned rot;
